@@ -175,8 +175,24 @@ pub fn run_corpus(
         for r in &sr.reports {
             out.agg.add(r);
         }
-        for (name, msg) in std::mem::take(&mut out.agg.panicked) {
-            out.inconclusive = Some(format!("checker panicked on {}: {}", name, msg));
+        for (name, msg, at) in std::mem::take(&mut out.agg.panicked) {
+            // an uncaught panic raised on a line of the enum definition comes out of derived code (expansions carry
+            // the derive's call-site span): a violation. Anywhere else it is the harness's own problem.
+            let in_def = at.as_ref().map_or(false, |(file, line)| {
+                em.layouts.iter().any(|l| file.ends_with(&l.file) && l.ranges.iter().any(|(a, b, t)| t == "def" && (*line as usize) >= *a && (*line as usize) <= *b) && l.modules.iter().any(|(a, b, n)| n == &name && (*line as usize) >= *a && (*line as usize) <= *b))
+            });
+            if in_def {
+                let spec = items.iter().find(|i| i.spec.name == name).map(|i| i.spec.clone());
+                out.violations.push(Violation {
+                    kind: "panic:in-derived-code".into(),
+                    enum_name: name.clone(),
+                    spec,
+                    detail: json!({"message": msg, "at": at}),
+                    profile: profile.to_string(),
+                });
+            } else {
+                out.inconclusive = Some(format!("checker panicked on {}: {} (at {:?})", name, msg, at));
+            }
         }
         for f in std::mem::take(&mut out.agg.failures) {
             let spec = items.iter().find(|i| i.spec.name == f.enum_name).map(|i| i.spec.clone());
